@@ -175,4 +175,28 @@ CHECKS = {
         "text": 'Decides each hand-off of layout in the LR parser: tried only without a token and in the layout state, stored before the retry, restored after the re-lex that follows a reduce, reset after a shift, whitespace skipper slice/position, builders store it on the right node, layout parser returns an input slice, AUGL lookup and skip_ws && !has_layout. Partial: not the round trip itself.',
         "note": 'Trusted: rustc MIR; GLR trees drop layout by design (property stated for LR).',
     },
+    "C03": {
+        "engine": "mirfacts",
+        "level": "other",
+        "ref": "DESIGN.md §5 C03",
+        "technique": 'keying/provenance rules and guard rules over MIR by path simulation (GLR shifter, reducer, frontier, forest); thin claim',
+        "text": "THIN: decides the structural clauses with an oracle in the definition of a GSS / right-nulled table: shifted heads keyed by (state, position), sub-frontiers keyed consistently, right-nulled lengths, SPPF node label on child replacement, accept/forest collection, index past the end. The reducer's re-queue discipline (completeness, duplicates, counts) and the index decoding are declined: no independent oracle.",
+        "note": 'Trusted: rustc MIR. A wrong re-queue condition in the reducer is invisible to this check (stated in the evidence).',
+    },
+    "C06": {
+        "engine": "mirfacts",
+        "level": "other",
+        "ref": "DESIGN.md §5 C06",
+        "technique": 'finite decision tables (sort key, finish flags, lexer stop rule, GLR filter) and provenance/sibling rules over MIR',
+        "text": "Decides the structure of lexical disambiguation: candidate set, stable descending sort and key table, finish-flag tables, the lexer's stop table, LR/GLR parser-side filters and their sibling agreement, kind->recogniser mapping; one known finding (priority-group cut). Partial: not which token wins for concrete regexes and inputs.",
+        "note": 'Trusted: rustc MIR; documented order of strategies (docs lexical ambiguities).',
+    },
+    "C07": {
+        "engine": "mirfacts",
+        "level": "other",
+        "ref": "DESIGN.md §5 C07",
+        "technique": 'sibling agreement: decisions of the LR and GLR runtimes reduced to common terms/tables from MIR and compared',
+        "text": 'Every decision both runtimes take (empty-span anchor, shift geometry, reduction spans, lexical filtering, STOP synthesis, error construction, layout-parser construction, replay protocol, table selection, right-nulled table) is extracted from both implementations and compared; a disagreement means some input is treated differently. Partial: not tree equality for concrete grammars.',
+        "note": 'Trusted: rustc MIR of both generic runtimes.',
+    },
 }
